@@ -259,20 +259,32 @@ class Verdicts:
     def reject(self, key, observed, what, replay_obj):
         """key: canonical minimal failing case; observed: signature of the wrong result."""
         for k in self.known:
-            if k["key"] == key and (k.get("observed") in (None, observed)):
-                self.known_hit.setdefault(k["key"], (k, 0))
-                kk, n = self.known_hit[k["key"]]
-                self.known_hit[k["key"]] = (kk, n + 1)
+            if "key_re" in k:
+                hit = re.fullmatch(k["key_re"], key) is not None
+            else:
+                hit = k["key"] == key
+            if hit and "observed_re" in k:
+                hit = re.fullmatch(k["observed_re"], str(observed)) is not None
+            elif hit and k.get("observed") is not None:
+                hit = k["observed"] == observed
+            if hit:
+                kid = k.get("id") or k.get("key") or k.get("key_re")
+                kk, n = self.known_hit.get(kid, (k, 0))
+                self.known_hit[kid] = (kk, n + 1)
                 return "known"
         self.violations.append((key, observed, what, replay_obj))
         return "violation"
 
     def finish(self):
         for key, (k, n) in sorted(self.known_hit.items()):
-            print("KNOWN-FINDING: property=%s %s [key=%s; %d rejected case(s)]" % (self.prop, k.get("what", ""), key, n))
+            print("KNOWN-FINDING: property=%s %s [%s; %d rejected case(s) this run]" % (self.prop, k.get("what", ""), key, n))
         if not self.violations:
             return 0
         os.makedirs(REPLAYS, exist_ok=True)
+        if os.environ.get("VERIF_DUMP"):
+            with open(os.environ["VERIF_DUMP"], "w") as f:
+                for key, observed, what, obj in self.violations:
+                    f.write(json.dumps({"property": self.prop, "key": key, "observed": observed, "what": what}) + "\n")
         seen = set()
         for key, observed, what, obj in self.violations:
             h = hashlib.sha1((self.prop + key + str(observed)).encode()).hexdigest()[:12]
